@@ -75,6 +75,7 @@ Skip ==
     /\ \/ (IsSys(E) /\ ~Mutating(E))
        \/ E.ev = "power"
        \/ E.ev = "final"
+       \/ E.ev = "closed"         \* (inside a reopen: the drop has returned; the code as modelled issues no call on its behalf)
        \/ E.ev = "fullmerge"      \* (the closing merge of a fault run is judged by TraceFs; only a reset follows)
     /\ Consume /\ UNCHANGED fvars
 
